@@ -408,9 +408,53 @@ def run_row(c, mods):
     return {"out": " ".join(outs), "fail": fail}
 
 
+_SQL = {}
+
+
+def sql_env():
+    """one in-memory SQLite engine with a typed table: Boolean / DateTime / Numeric columns make the
+    cursor result run the result processors of engine/_processors_cy on every fetched row"""
+    if _SQL:
+        return _SQL
+    import sqlalchemy as sa
+
+    eng = sa.create_engine("sqlite://")
+    md = sa.MetaData()
+    t = sa.Table(
+        "c55", md,
+        sa.Column("id", sa.Integer, primary_key=True),
+        sa.Column("b", sa.Boolean),
+        sa.Column("s", sa.String),
+        sa.Column("d", sa.DateTime),
+        sa.Column("n", sa.Numeric(10, 2)),
+    )
+    md.create_all(eng)
+    _SQL.update(eng=eng, t=t, sa=sa, conn=eng.connect())
+    return _SQL
+
+
+def make_sql_result(c):
+    E = sql_env()
+    sa, t, conn = E["sa"], E["t"], E["conn"]
+    conn.execute(t.delete())
+    exp = []
+    for i, (b, sv, d, n) in enumerate(c["rows"]):
+        dv = None if d is None else datetime.datetime.fromisoformat(d)
+        nv = None if n is None else decimal.Decimal(n)
+        conn.execute(t.insert(), {"id": i, "b": b, "s": sv, "d": dv, "n": nv})
+        exp.append((b, sv, dv, nv))
+    res = conn.execute(sa.select(t.c.b, t.c.s, t.c.d, t.c.n).order_by(t.c.id))
+    return res, exp
+
+
 def run_result(c, mods):
-    res, rows = make_result(c)
-    exp_rows = [apply_procs(c, r) for r in rows]
+    if c["kind"] == "sqlresult":
+        with warnings.catch_warnings():
+            warnings.simplefilter("ignore")
+            res, exp_rows = make_sql_result(c)
+    else:
+        res, rows = make_result(c)
+        exp_rows = [apply_procs(c, r) for r in rows]
     keys = c["keys"]
     flt = c.get("filter", ["none"])
     uniq = c.get("unique", False)
@@ -465,6 +509,10 @@ def run_result(c, mods):
         if fail is None:
             fail = ["result-%s-differs-from-row-stream" % what, detail]
 
+    def sc(v):
+        # a NULL first column and "no row" are both reported as None by scalar()
+        return None if v is None else ("s", v)
+
     closed = False
     for op in c["ops"]:
         n = op[0]
@@ -493,13 +541,13 @@ def run_result(c, mods):
             e = "E:MultipleResultsFound" if len(rest) > 1 else (rest[0] if rest else "E:NoResultFound")
             adv, closed = 0, True
         elif n == "scalar":
-            e = ("s", rest[0][0]) if rest else None
+            e = sc(rest[0][0]) if rest else None
             adv, closed = 0, True
         elif n == "scalar_one":
-            e = "E:MultipleResultsFound" if len(rest) > 1 else (("s", rest[0][0]) if rest else "E:NoResultFound")
+            e = "E:MultipleResultsFound" if len(rest) > 1 else (sc(rest[0][0]) if rest else "E:NoResultFound")
             adv, closed = 0, True
         elif n == "scalar_one_or_none":
-            e = "E:MultipleResultsFound" if len(rest) > 1 else (("s", rest[0][0]) if rest else None)
+            e = "E:MultipleResultsFound" if len(rest) > 1 else (sc(rest[0][0]) if rest else None)
             adv, closed = 0, True
         else:
             raise ValueError(n)
@@ -550,7 +598,7 @@ def run_case(c, mods):
         return run_anon(c, mods)
     if k == "row":
         return run_row(c, mods)
-    if k == "result":
+    if k in ("result", "sqlresult"):
         return run_result(c, mods)
     raise ValueError(k)
 
@@ -579,7 +627,7 @@ def gen_proc(rng):
     elif fn == "str_to_date":
         arg = rng.choice([["str", s] for s in ISO_D] + [["int", 5]])
     else:
-        arg = rng.choice([["float", "1.005"], ["float", "2.675"], ["int", 3], ["dec", "1.255"], ["float", "-0.0004"], ["str", "x"], ["float", "1e20"], ["float", "0.1"], ["bool", True], ["float", "123456.789"]])
+        arg = rng.choice([["float", "1.005"], ["float", "2.675"], ["int", 3], ["dec", "1.255"], ["float", "-0.0004"], ["str", "x"], ["float", "1e20"], ["float", "0.1"], ["bool", True], ["float", "123456.789"], ["int", 0], ["float", "0.0"], ["bool", False], ["float", "-0.0"], ["dec", "0"]])
     c = {"kind": "proc", "fn": fn, "arg": arg}
     if fn == "to_decimal":
         c["scale"] = rng.choice([0, 1, 2, 4, 10])
@@ -684,4 +732,18 @@ def gen_cases(rng, n):
                     ops = [o for o in ops if o[0] not in single] or [["all"]]
             c["ops"] = ops
             out.append(c)
+            if rng.random() < 0.3:
+                # the same access pattern on a real SQLite cursor result with typed columns
+                sc = dict(c, kind="sqlresult", keys=["b", "s", "d", "n"])
+                sc.pop("procs", None)
+                sc.pop("rowtype", None)
+                nrows = len(c["rows"])
+                sc["rows"] = [[rng.choice([True, False, None]), rng.choice(["x", "y", "", None]),
+                               rng.choice(["2024-02-29T13:45:10", "1999-12-31T23:59:59.500000", "2024-01-01T00:00:00", None]),
+                               rng.choice(["1.25", "10.00", "-3.50", "0.10", "0.00", None])] for _ in range(nrows)]
+                if sc.get("filter", ["none"])[0] == "scalars":
+                    sc["filter"] = ["scalars", rng.randrange(4)]
+                elif sc.get("filter", ["none"])[0] == "columns":
+                    sc["filter"] = ["columns", [rng.randrange(4) for _ in range(rng.randint(1, 2))]]
+                out.append(sc)
     return out
